@@ -155,7 +155,11 @@ class RV:
 
     @property
     def Et(self):
-        return mpmath.sqrt(self.Et2)
+        # documented: E_T = E sin(theta)  (carries the sign of E)
+        m = self.mag
+        if m == 0:
+            raise Undefined("Et of zero momentum")
+        return self.t * self.rho / m
 
     @property
     def Mt2(self):
